@@ -24,6 +24,9 @@ META = (META[0] + ' S8 (the iterator returned for a new element is the lower_bou
 META = (META[0] + ' BISECT (the bisection loops of lower_bound / upper_bound, which every lookup and insertion of the sets rests on, keep exactly the half that can hold the answer).', META[1])
 
 
+META = (META[0] + ' MEMSHORT (a bytewise memcmp / memcpy / memmove over elements is guarded by the trait that makes bytes and values agree; controls in fixtures/extra10_pos.hpp).', META[1])
+
+
 def run(chk, tier):
     db = D.load("checks")
     from ..rules import params as _PR
@@ -38,6 +41,10 @@ def run(chk, tier):
         chk.analysis_broken("BISECT: the bisection loops of lower_bound / upper_bound were not found")
     from ..rules import initform as _IF
     _IF.check(chk, db, ['_set/', '_flat_set/'])      # INITFORM: emplace direct-non-list-initialises the key
+    from ..rules import extra10 as _X10
+    if _X10.mem_shortcut_area(chk, db, ['_set/', '_flat_set/', '_algorithm/lower_bound', '_algorithm/upper_bound', '_algorithm/equal', '_algorithm/lexicographical']) < 40:      # MEMSHORT
+        chk.analysis_broken('MEMSHORT: fewer than 40 function bodies scanned (floor 40)')
+    _X10.positive_controls(chk, D, ('MEMSHORT',))
     totals = {}
     for rq, needs_full in SETS.items():
         if not db.rec_by_q.get(rq):
